@@ -19,6 +19,7 @@ import IpcHub.Lemmas.AuthTokens
 import IpcHub.Lemmas.AuthTokSim
 import IpcHub.Lemmas.Ids
 import IpcHub.Lemmas.AuthWitness
+import IpcHub.Lemmas.AuthSeq
 import IpcHub.Model.AuthInst
 namespace IpcHub.Props.C11
 open IpcHub.PathMatch IpcHub.PatternLang IpcHub.Auth IpcHub.Monitor
@@ -523,6 +524,127 @@ example :
   decide
 
 end
+
+/-! ## all histories, all request sequences: the statements with no hypothesis left -/
+
+/-- the model world after ANY administrative history `h` (most recent first) and ANY token history
+    `ops` (logins, refreshes and access checks with arbitrary strings, sweeps, clock ticks), with any
+    registry content -/
+def worldOf (h : List AdminOp) (ops : List TokOp) (authOn : Bool) (streams : List StreamEnt) : World :=
+  let p := grun Auth.genCfg TState.init [] ops
+  { authOn := authOn, users := usersOf Auth.genCfg h, toks := p.1.t, next := p.1.next, now := p.1.now, streams := streams }
+
+/-- the monitor's state after the same histories: the history itself and the grants it implies -/
+def sworldOf (h : List AdminOp) (ops : List TokOp) (authOn : Bool) : SWorld :=
+  let p := grun Auth.genCfg TState.init [] ops
+  { authOn := authOn, hist := h, grants := p.2, now := p.1.now }
+
+/-- after every pair of histories the model state is related to the monitor's -/
+theorem c11_histories_related (h : List AdminOp) (ops : List TokOp) (authOn : Bool) (streams : List StreamEnt) :
+    Rel Auth.genCfg env (worldOf h ops authOn streams) (sworldOf h ops authOn) :=
+  c11_rel_users _ _ rfl rfl (fun t => c11_tokens_simulate_grants ops t)
+
+/-- **All histories, all HTTP entry points.**  After EVERY history of user creations / updates /
+    deletions and EVERY history of logins, refreshes, expiry sweeps and passing time, for every
+    registry content, request method, URL path, token string, sub-protocol and client-sent identity
+    header: what `/streams/` (FLV, playlist, segment), the WebSocket upgrade and `/api/` do is
+    accepted by the reference monitor — media and management only for the user of a live,
+    unexpired access token whose rights AS LAST SAVED cover it, and no refusal of such a user. -/
+theorem c11_all_histories_http (h : List AdminOp) (ops : List TokOp) (authOn : Bool) (streams : List StreamEnt)
+    (m : HMethod) (isGet : Bool) (path : List Char) (tok : TokRef) (sub : WsSub) (hdr : List (List Char)) :
+    let w := worldOf h ops authOn streams
+    let sw := sworldOf h ops authOn
+    judgeHttp env sw path tok (httpStreamH Auth.genCfg w m path tok hdr).2 = .ok ∧
+    judgeWs env sw path tok (wsUpgradeH Auth.genCfg w path tok sub hdr).2 = .ok ∧
+    judgeApi env sw isGet path tok (apiGateH Auth.genCfg w m isGet path tok hdr).2 = .ok := by
+  intro w sw
+  have r := c11_histories_related h ops authOn streams
+  exact ⟨c11_http_streams_ok w sw r m path tok hdr, c11_ws_upgrade_ok w sw r path tok sub hdr,
+         c11_api_ok w sw r m isGet path tok hdr⟩
+
+/-- **Every request sequence on a session** (by induction with `c11_rtsp_step_ok` and
+    `c11_rtsp_invariants`; a request changes nothing of the world but the registry).  From a session
+    satisfying the invariants, in any related state, EVERY verdict along ANY coherent request
+    sequence is `ok`.  (`Coherent`: a request claims a response to "the nonce of the latest
+    response" only if a response was shown; users and tokens stay as they are during the sequence —
+    changes in between are what the one-step theorem is for.) -/
+theorem c11_rtsp_sequence_ok (sw : SWorld) (hon : sw.authOn = true) (reqs : List RtspReq) :
+    ∀ (w : World) (s : RtspSess) (ss : SSess), Rel Auth.genCfg env w sw →
+      s.digest = (s.ws.isNone && w.authOn) → SInv Auth.genCfg s → SessRel s ss → Coherent Auth.genCfg w s reqs →
+      ∀ v ∈ rtspVerdicts Auth.genCfg env sw w s ss reqs, v = .ok := by
+  induction reqs with
+  | nil => intro w s ss _ _ _ _ _ v hv; cases hv
+  | cons rq rest ih =>
+    intro w s ss r hd inv rel hcoh v hv
+    simp only [rtspVerdicts, List.mem_cons] at hv
+    obtain ⟨hf, hrest⟩ := hcoh
+    rcases hv with hv | hv
+    · rw [hv]; exact c11_rtsp_step_ok w sw r hon s ss hd inv rel rq hf
+    · have hk := c11_rtsp_invariants w s ss inv rel rq
+      have hsame := rtspStep_same Auth.genCfg w s rq
+      refine ih _ _ _ (rel_of_same r hsame) ?_ hk.1 hk.2.1 hrest v hv
+      rw [hk.2.2.1, hk.2.2.2, hsame.2.2.2]; exact hd
+
+/-- on a digest session that has shown a nonce every sequence is coherent -/
+theorem c11_coherent_of_shown (reqs : List RtspReq) :
+    ∀ (w : World) (s : RtspSess) (ss : SSess), s.digest = true → SInv Auth.genCfg s → SessRel s ss →
+      s.shown.isSome = true → Coherent Auth.genCfg w s reqs := by
+  induction reqs with
+  | nil => intro _ _ _ _ _ _ _; trivial
+  | cons rq rest ih =>
+    intro w s ss hd inv rel hs
+    have hk := c11_rtsp_invariants w s ss inv rel rq
+    exact ⟨fun _ _ _ => hs, ih _ _ _ (by rw [hk.2.2.1]; exact hd) hk.1 hk.2.1 (rtspStep_shown _ w s rq hd)⟩
+
+/-- **All histories, every request sequence on a new plain RTSP session, no hypothesis left** but
+    that the very first request cannot answer a nonce nobody has shown yet: after every
+    administrative and token history, with authentication on, any registry, any session id, any
+    first request and any continuation — every exchange is judged `ok`. -/
+theorem c11_rtsp_every_sequence (h : List AdminOp) (ops : List TokOp) (streams : List StreamEnt) (id : Nat)
+    (rq0 : RtspReq) (h0 : ∀ c, rq0.cred = some c → c.fresh = false) (rest : List RtspReq) :
+    let w := worldOf h ops true streams
+    ∀ v ∈ rtspVerdicts Auth.genCfg env (sworldOf h ops true) w (newRtspSess w id none) {} (rq0 :: rest), v = .ok := by
+  intro w
+  obtain ⟨i1, i2, i3⟩ := c11_rtsp_plain_session_init w id
+  have r := c11_histories_related h ops true streams
+  have hk := c11_rtsp_invariants w (newRtspSess w id none) {} i1 i2 rq0
+  have hdig : (newRtspSess w id none).digest = true := rfl
+  refine c11_rtsp_sequence_ok _ rfl _ w _ _ r i3 i1 i2 ⟨?_, ?_⟩
+  · intro c hc hf; rw [h0 c hc] at hf; cases hf
+  · exact c11_coherent_of_shown rest _ _ _ (by rw [hk.2.2.1]; exact hdig) hk.1 hk.2.1
+      (rtspStep_shown _ w _ rq0 hdig)
+
+/-- FULL STATEMENT: the same for a session opened over WebSocket on any path the mux lets through.
+    PROVED (`_partial`): for a WebSocket connection on a path that is its own canonical form (see
+    `c11_rtsp_ws_session_init_partial`), and requests that carry no digest claim (a WebSocket session
+    never shows a nonce).  The connection label `c` is the one `c11_ws_upgrade_ok` guarantees. -/
+theorem c11_rtsp_ws_every_sequence_partial (h : List AdminOp) (ops : List TokOp) (streams : List StreamEnt) (id : Nat)
+    (c : WsConn) (hc : canonicalPath Auth.genCfg c.path = c.path) (reqs : List RtspReq)
+    (hn : ∀ rq ∈ reqs, ∀ cr, rq.cred = some cr → cr.fresh = false) :
+    let w := worldOf h ops true streams
+    ∀ v ∈ rtspVerdicts Auth.genCfg env (sworldOf h ops true) w (newRtspSess w id (some c)) { resource := c.path } reqs, v = .ok := by
+  intro w
+  obtain ⟨i1, i2, i3⟩ := c11_rtsp_ws_session_init_partial w id c hc
+  exact c11_rtsp_sequence_ok _ rfl _ w _ _ (c11_histories_related h ops true streams) i3 i1 i2
+    (coherent_of_nofresh _ reqs hn w _)
+
+/-- non-vacuity: a four-request sequence (challenge, DESCRIBE, SETUP, PLAY by alice with her saved
+    password and the nonce shown) meets the hypothesis of `c11_rtsp_every_sequence`, and in the
+    example world it ends with a consumer attached (evaluated with the reviewed configuration). -/
+example :
+    let cred : Cred := { user := "alice".toList, secret := .plain "pw".toList, fresh := true }
+    let q (m : Method) (c : Option Cred) : RtspReq := { method := m, urlPath := "/cam/1".toList, cred := c }
+    (∀ c, (q .describe none).cred = some c → c.fresh = false) ∧
+    (let s0 := newRtspSess exWorldF 7 none
+     let r0 := rtspStep Witness.cfgFixed exWorldF s0 (q .describe none)
+     let r1 := rtspStep Witness.cfgFixed r0.1 r0.2.1 (q .describe (some cred))
+     let r2 := rtspStep Witness.cfgFixed r1.1 r1.2.1 (q .setup (some cred))
+     let r3 := rtspStep Witness.cfgFixed r2.1 r2.2.1 (q .play (some cred))
+     r0.2.2.code = 401 ∧ r1.2.2 = { code := 200, eff := .describe "/cam/1".toList } ∧ r2.2.2.code = 200 ∧
+     r3.2.2 = { code := 200, eff := .play "/cam/1".toList }) := by
+  intro cred q
+  refine ⟨fun c hc => (by simp [q] at hc), ?_⟩
+  decide
 
 /-! ## secrecy of tokens and nonces -/
 
